@@ -205,6 +205,10 @@ class C12(Sim):
         "disabled_variable_untouched", "defuzzifier_reuses_its_result_buffer",
     ]
 
+    def prepare(self) -> None:
+        from simkit import spec as S
+        S.load_example_specs()
+
     # ------------------------------------------------------------------ generation
     def gen_cfg(self, rng) -> dict:
         lo, hi = rng.choice([(0.0, 1.0), (-1.0, 1.0), (-5.0, 20.0), (0.0, 0.0), (-inf, inf), (-inf, 3.0), (2.0, inf)])
